@@ -17,14 +17,19 @@ CONSTANTS Start,      \* which creation prefix the room starts from (1 or 2)
           MaxFree,    \* number of events after the creation prefix
           ForkFrom,   \* smallest event id that may be used as a prev event of a new event
           TSChoices,  \* timestamp ranks a new event may carry
-          IdDesc      \* TRUE: later events get lexicographically smaller IDs / SHA-1 ranks
+          IdDesc,     \* TRUE: later events get lexicographically smaller IDs / SHA-1 ranks
+          MaxBad,     \* with Dishonest: how many such events may be sent
+          Dishonest   \* TRUE: servers may also send events their own state does not allow (a joined user of any
+                      \* level sends power events); such events sit in branches and auth chains and must lose
+                      \* wherever resolution checks them
 
 VARIABLES E,      \* event store: id -> event record
           after,  \* id -> state (set of ids) after the event
           last,   \* id of the event added by the last step (0 initially)
-          before  \* history: the state the last event was sent on top of
+          before, \* history: the state the last event was sent on top of
+          nbad    \* number of events sent so far that their sender's own state does not allow (Dishonest only)
 
-vars == <<E, after, last, before>>
+vars == <<E, after, last, before, nbad>>
 
 N == Len(E)
 IdRank(i) == IF IdDesc THEN 100 - i ELSE i
@@ -77,6 +82,7 @@ InitRoom ==
         \/ /\ Start = 3 /\ E = Prefix3.E /\ after = Prefix3.after /\ last = 0
 
 Init == /\ before = {}
+        /\ nbad = 0
         /\ InitRoom
 
 
@@ -115,7 +121,7 @@ Plausible(S, u, kind) ==
     CASE kind = "join" -> MemIn(S, u) # "ban"
       [] kind = "leave" -> MemIn(S, u) \in {"join", "invite"}
       [] kind = "invite" -> MemIn(S, u) = "join"
-      [] OTHER -> MemIn(S, u) = "join" /\ LevelIn(S, u) >= R50
+      [] OTHER -> MemIn(S, u) = "join" /\ (Dishonest \/ LevelIn(S, u) >= R50)
 
 Send(u, kind, t, lvl, rule, prevs, ts, S) ==
     /\ LET i == N + 1
@@ -137,7 +143,11 @@ Send(u, kind, t, lvl, rule, prevs, ts, S) ==
           /\ (kind = "jr" => ForKey(E, S, <<"jr", "">>) = {} \/ E[CHOOSE j \in ForKey(E, S, <<"jr", "">>) : TRUE].jr # rule)
           \* honest servers only send what their state allows ("= TRUE": evaluate as a value; left as an action
           \* formula TLC would branch on every disjunction inside Allowed)
-          /\ AllowedAt(E2, Ver, auth, i) = TRUE
+          \* a dishonest server slips in at most MaxBad such events; what is sent on top of one is again allowed
+          \* by the (tainted) state it is sent on
+          /\ LET ok == AllowedAt(E2, Ver, auth, i) = TRUE IN
+                /\ ok \/ (Dishonest /\ nbad < MaxBad)
+                /\ nbad' = IF ok THEN nbad ELSE nbad + 1
           /\ E' = E2
           /\ after' = Append(after, ApplyTo(E2, S, i))
           /\ last' = i
@@ -181,7 +191,8 @@ PairOK(a, b, R) ==
 
 \* C08 along room histories: every power-levels event an honest server sends (i.e. that the rules accept on
 \* top of the state it was sent on) satisfies the no-escalation invariant
-HistoryNoEsc == (last # 0 /\ E[last].type = "pl") => NoEsc(Ver, StOf(E, before), EvOf(E, last))
+HistoryNoEsc == (last # 0 /\ E[last].type = "pl" /\ AllowedAt(E, Ver, E[last].auth, last))
+                   => NoEsc(Ver, StOf(E, before), EvOf(E, last))
 
 ResolutionOK == \A p \in ForkPairs : PairOK(p[1], p[2], Resolve(E, Ver, <<after[p[1]], after[p[2]]>>))
 =============================================================================
